@@ -895,6 +895,9 @@ class Translator:
             if name in ('min', 'max') and len(args) == 1 and args[0].k == 'seqctor':
                 args = args[0].args
             return E('call', t, fn='std::' + name, kind='prim', args=args)
+        if name in ('begin', 'end', 'cbegin', 'cend') and len(args) == 1 and is_seq(args[0].t):
+            self.count('R8')
+            return E('call', 'iter', fn='seq.' + name.lstrip('c'), kind='prim', args=args)
         if name == 'epsilon' and not args:
             return E('lit', 'double', v=2.220446049250313e-16, text='2.220446049250313e-16')
         return E('call', t, fn='ext:' + str(name), kind='ext', args=args)
